@@ -75,4 +75,112 @@ theorem date_proper {d : Date} (h : Proper d) : d.date = (d.year + 1, d.month + 
   rw [wrap32_id (by omega)]
   refine Prod.ext rfl (Prod.ext ?_ ?_) <;> simp only <;> omega
 
+
+theorem ofCivil_valid {y : Int} {m : Nat} {d : Int} (hv : ValidDate y m d) :
+    ofCivil (y, m, d) = ⟨wrap32 (y - 1), m - 1, (d - 1).toNat⟩ := by
+  obtain ⟨h1, h12, hd1, hd⟩ := hv
+  have := daysIn_le y m
+  unfold ofCivil
+  simp only
+  congr 1
+  · omega
+  · omega
+
+/-- what `FromTime` stores for the day with number `n`, provided its year fits `int32` -/
+theorem ofCivil_civil (n : Int) (hy : -2147483647 ≤ (civil n).1 ∧ (civil n).1 < 2147483648) :
+    Proper (ofCivil (civil n)) ∧ (ofCivil (civil n)).ordinal = n ∧
+      (ofCivil (civil n)).date = ((civil n).1, (civil n).2.1, (civil n).2.2.toNat) := by
+  obtain ⟨hv, ho⟩ := ordinal_civil n
+  have e : civil n = ((civil n).1, (civil n).2.1, (civil n).2.2) := rfl
+  generalize (civil n).1 = y at *
+  generalize (civil n).2.1 = m at *
+  generalize (civil n).2.2 = d at *
+  rw [e]
+  have hn := new_valid hv
+  have hp := proper_new hv hy
+  have hd := date_new_valid hv ⟨by omega, hy.2⟩
+  rw [← ofCivil_valid hv] at hn
+  rw [← hn]
+  refine ⟨hp, ?_, hd⟩
+  rw [ordinal_proper hp, hd]
+  obtain ⟨h1, h12, hd1, hd'⟩ := hv
+  have e2 : ((d.toNat : Nat) : Int) = d := by omega
+  simp only [e2]
+  exact ho
+
+/-- stored-field comparison of proper dates is comparison of day numbers -/
+theorem before_iff {d e : Date} (hd : Proper d) (he : Proper e) :
+    d.before e = true ↔ d.ordinal < e.ordinal := by
+  rw [ordinal_proper hd, ordinal_proper he, ordinal_lt_iff hd.1 he.1, date_proper hd, date_proper he]
+  unfold Date.before
+  simp only
+  constructor
+  · intro h
+    split at h
+    · left; omega
+    · split at h
+      · simp at h
+      · split at h
+        · right; exact ⟨by omega, Or.inl (by omega)⟩
+        · split at h
+          · simp at h
+          · split at h
+            · right; exact ⟨by omega, Or.inr ⟨by omega, by omega⟩⟩
+            · simp at h
+  · intro h
+    rcases h with h | ⟨h1, h2 | ⟨h2, h3⟩⟩
+    · rw [if_pos (by omega)]
+    · rw [if_neg (by omega), if_neg (by omega), if_pos (by omega)]
+    · rw [if_neg (by omega), if_neg (by omega), if_neg (by omega), if_neg (by omega), if_pos (by omega)]
+
+theorem after_eq_before (d e : Date) : d.after e = e.before d := rfl
+
+theorem after_iff {d e : Date} (hd : Proper d) (he : Proper e) :
+    d.after e = true ↔ e.ordinal < d.ordinal := by
+  rw [after_eq_before, before_iff he hd]
+
+theorem equal_iff_eq (d e : Date) : d.equal e = true ↔ d = e := by
+  unfold Date.equal
+  simp only [Bool.and_eq_true, beq_iff_eq]
+  constructor
+  · intro h; cases d; cases e; simp_all
+  · intro h; subst h; simp
+
+theorem equal_iff {d e : Date} (hd : Proper d) (he : Proper e) :
+    d.equal e = true ↔ d.ordinal = e.ordinal := by
+  rw [equal_iff_eq]
+  constructor
+  · intro h; rw [h]
+  · intro h
+    have h1 := before_iff hd he
+    have h2 := before_iff he hd
+    have n1 : d.before e = false := by
+      cases hb : d.before e
+      · rfl
+      · have := h1.mp hb; omega
+    have n2 : e.before d = false := by
+      cases hb : e.before d
+      · rfl
+      · have := h2.mp hb; omega
+    unfold Date.before at n1 n2
+    have : d.year = e.year ∧ d.month = e.month ∧ d.day = e.day := by
+      by_cases a1 : d.year < e.year
+      · rw [if_pos a1] at n1; simp at n1
+      · by_cases a2 : d.year > e.year
+        · rw [if_pos a2] at n2; simp at n2
+        · rw [if_neg a1, if_neg a2] at n1
+          rw [if_neg a2, if_neg a1] at n2
+          by_cases a3 : d.month < e.month
+          · rw [if_pos a3] at n1; simp at n1
+          · by_cases a4 : d.month > e.month
+            · rw [if_pos a4] at n2; simp at n2
+            · rw [if_neg a3, if_neg a4] at n1
+              rw [if_neg a4, if_neg a3] at n2
+              by_cases a5 : d.day < e.day
+              · rw [if_pos a5] at n1; simp at n1
+              · by_cases a6 : e.day < d.day
+                · rw [if_pos a6] at n2; simp at n2
+                · exact ⟨by omega, by omega, by omega⟩
+    cases d; cases e; simp_all
+
 end U.Date
